@@ -7,7 +7,7 @@ import ast
 import sympy as sp
 
 from .values import (Val, Num, StrV, NoneV, NONE, BoolV, CondV, TupleV, ListV, DictV, SetV, SliceV, ObjV, PyFuncV,
-                     ClassV, FuncV, ExtV, BoundBuiltin, OpaqueV, SigParamV, SignatureV, Unsupported,
+                     ClassV, FuncV, ExtV, BoundBuiltin, OpaqueV, SigParamV, SignatureV, Unsupported, DispatchV,
                      DimensionError, UNITS, UNIT_SYMS, F, NONE_S, mk_ite)
 from .model import ClassInfo, FunctionInfo, ModuleInfo, norm
 
@@ -73,11 +73,28 @@ def constant(ev, dotted):
         return Num(ue, kind="quantity", unit=ue, tag="unit")
     if dotted == "astropy.utils.compat.COPY_IF_NEEDED":
         return NONE
+    if dotted in ("inspect._empty", "inspect.Signature.empty"):
+        return ExtV("inspect.Parameter.empty")
+    if dotted.startswith("inspect._ParameterKind."):
+        return ExtV("inspect.Parameter." + dotted.rsplit(".", 1)[1])
     return ExtV(dotted)
+
+
+NP_KIND = {"float16": "f", "float32": "f", "float64": "f", "complex64": "c", "complex128": "c", "int8": "i", "int16": "i", "int32": "i",
+           "int64": "i", "uint8": "u", "bool_": "b", "str_": "U"}
 
 
 def ext_getattr(ev, obj: ExtV, name, fr, node):
     d = obj.dotted
+    if d.startswith("numpy.") and d[6:] in NP_KIND and name in ("kind", "name", "itemsize", "type", "dtype"):
+        if name == "kind":
+            return StrV(NP_KIND[d[6:]])
+        if name == "name":
+            return StrV(d[6:])
+        if name in ("type", "dtype"):
+            return obj
+        import numpy as _np
+        return Num(int(_np.dtype(getattr(_np, d[6:])).itemsize))
     if d.startswith("ufunc:"):
         if name in ("__call__",):
             return obj
@@ -103,6 +120,8 @@ def ext_getattr(ev, obj: ExtV, name, fr, node):
             return ExtV(d + "." + name)
         from .symeval import Raised
         raise Raised("AttributeError", node, f"{d} has no attribute {name}")
+    if name in ("__qualname__", "__name__", "__doc__"):
+        return StrV(d.rsplit(".", 1)[-1])
     if d == "builtins.super_obj":
         return obj
     return constant(ev, d + "." + name)
@@ -334,19 +353,20 @@ def binop(ev, op, a, b, node, fr):
     x, y = a.expr, bexpr
     kind = _kind(op, a, b)
     unit = None
+    keep = getattr(ev, "grouping", False)     # keep the source's association (floating-point grouping matters)
     if isinstance(op, ast.Add):
-        r = x + y
+        r = sp.Add(x, y, evaluate=False) if keep else x + y
         unit = a.unit
     elif isinstance(op, ast.Sub):
-        r = x - y
+        r = sp.Add(x, sp.Mul(-1, y, evaluate=False), evaluate=False) if keep else x - y
         unit = a.unit
     elif isinstance(op, ast.Mult):
-        r = x * y
+        r = sp.Mul(x, y, evaluate=False) if keep else x * y
         unit = _unit_mul(a, b)
     elif isinstance(op, ast.Div):
         if y == 0:
             raise Raised("ZeroDivisionError", node)
-        r = x / y
+        r = sp.Mul(x, sp.Pow(y, -1, evaluate=False), evaluate=False) if keep else x / y
         unit = _unit_mul(a, b, div=True)
     elif isinstance(op, ast.FloorDiv):
         r = sp.floor(x / y)
@@ -697,9 +717,9 @@ def val_getattr(ev, obj, name, fr, node):
         raise Raised("AttributeError", node, f"None has no attribute {name}")
     if isinstance(obj, SigParamV):
         if name == "kind":
-            return StrV("kind:" + obj.kind)
+            return ExtV("inspect.Parameter." + obj.kind)
         if name in ("POSITIONAL_ONLY", "KEYWORD_ONLY", "VAR_KEYWORD", "VAR_POSITIONAL", "POSITIONAL_OR_KEYWORD"):
-            return StrV("kind:" + name)
+            return ExtV("inspect.Parameter." + name)
         if name == "default":
             return ExtV("inspect.Parameter.empty") if not obj.has_default else OpaqueV("default")
         if name == "empty":
@@ -716,6 +736,10 @@ def val_getattr(ev, obj, name, fr, node):
         if name in ("__name__", "__qualname__"):
             return StrV(obj.fi.name)
         if name == "__doc__":
+            return StrV("")
+        return BoundBuiltin(obj, name)
+    if isinstance(obj, DispatchV):
+        if name in ("__name__", "__qualname__", "__doc__"):
             return StrV("")
         return BoundBuiltin(obj, name)
     if isinstance(obj, OpaqueV):
@@ -886,6 +910,19 @@ def call_method(ev, recv, name, args, kwargs, fr, node):
         raise Raised("ValueError", node)
     if isinstance(recv, StrV):
         return str_method(ev, recv, name, args, kwargs, fr, node)
+    if isinstance(recv, DispatchV) and name == "register":
+        t = args[0] if args else None
+        key = t.dotted if isinstance(t, ExtV) else (t.ci.name if isinstance(t, ClassV) else None)
+        if key in ("dask.array.core.Array",):
+            key = "dask.array.Array"
+        if len(args) == 2:
+            recv.registry[key] = args[1]
+            return args[1]
+
+        def deco(ev2, a, k, fr2, node2):
+            recv.registry[key] = a[0]
+            return a[0]
+        return PyFuncV(deco, "register")
     if isinstance(recv, FuncV):
         if name == "register":      # singledispatch registration
             return OpaqueV("decorator")
@@ -1768,6 +1805,8 @@ def h_zeros(ev, args, kwargs, fr, node, fill=0):
         n = 1
         for d in dims:
             n *= int(d)
+        if n == 0:
+            return Num(sp.Symbol("empty_array"), kind="array", shape=dims, dtype=dt if isinstance(dt, ExtV) else None, tag="filled")
         if n <= 64:
             arr = NdArr([int(d) for d in dims], [Num(fill) for _ in range(n)])
             arr.dtype = dt
@@ -1981,6 +2020,20 @@ def h_broadcast_to(ev, args, kwargs, fr, node):
     ev.unsupported("np.broadcast_to with symbolic shapes", node, fr)
 
 
+def h_result_type(ev, args, kwargs, fr, node):
+    import numpy as _np
+    names = []
+    for a in args:
+        if isinstance(a, ExtV) and a.dotted.startswith("numpy.") and a.dotted[6:] in NP_KIND:
+            names.append(getattr(_np, a.dotted[6:]))
+        elif isinstance(a, Num) and isinstance(a.dtype, ExtV) and a.dtype.dotted[6:] in NP_KIND:
+            names.append(getattr(_np, a.dtype.dotted[6:]))
+        else:
+            ev.unsupported("np.result_type of a value without a known dtype", node, fr)
+    r = _np.result_type(*names)
+    return ExtV("numpy." + (r.name if r.name != "bool" else "bool_"))
+
+
 def h_unique(ev, args, kwargs, fr, node):
     x = args[0]
     if isinstance(x, NdArr) and all(isinstance(e, Num) and e.expr.is_number for e in x.items):
@@ -2171,6 +2224,21 @@ def h_tokenize(ev, args, kwargs, fr, node):
     for a in args:
         exprs.append(a.expr if isinstance(a, Num) else sp.Symbol("tok_" + type(a).__name__ + "_" + str(getattr(a, "s", getattr(a, "dotted", "")))[:30]))
     return Num(sp.Function("Token")(*exprs), kind="number", tag="token")
+
+
+def h_fft_wrap(ev, args, kwargs, fr, node):
+    inner = args[0]
+    extra = {k: v for k, v in kwargs.items()}
+    if len(args) > 1:
+        extra["kind"] = args[1]
+
+    def wrapped(ev2, a, k, fr2, node2):
+        ev2.trace.append(("fft_wrap", inner, list(a), dict(k), extra))
+        res = ev2.apply(inner, a, k, fr2, node2)
+        if isinstance(res, Num):
+            res = res.like(res.expr, unit=res.unit, backend="dask", tag=res.tag)
+        return res
+    return PyFuncV(wrapped, "fft_wrapped")
 
 
 def h_nullcontext(ev, args, kwargs, fr, node):
@@ -2365,6 +2433,9 @@ EXT = {
     "numpy.fft.fftshift": _shift_like("FFTSHIFT"), "numpy.fft.ifftshift": _shift_like("IFFTSHIFT"),
     "astropy.units.Quantity": h_quantity, "astropy.coordinates.Angle": lambda ev, a, k, fr, n: h_quantity(ev, a, k, fr, n, angle=True),
     "astropy.coordinates.Longitude": lambda ev, a, k, fr, n: h_quantity(ev, a, k, fr, n, angle=True),
+    "numpy.result_type": lambda ev, a, k, fr, n: h_result_type(ev, a, k, fr, n),
+    "numpy.promote_types": lambda ev, a, k, fr, n: h_result_type(ev, a, k, fr, n),
+    "numpy.empty": lambda ev, a, k, fr, n: h_zeros(ev, a, k, fr, n),
     "numpy.lexsort": lambda ev, a, k, fr, n: (ev.trace.append(("lexsort", k.get("keys", a[0] if a else NONE), k.get("axis", a[1] if len(a) > 1 else NONE), n)),
                                               Num(sp.Function("Lexsort")(*[x.expr if isinstance(x, Num) else sp.Symbol("key") for x in ev.iterate(k.get("keys", a[0] if a else NONE), fr, n)])))[1],
     "numpy.unique": lambda ev, a, k, fr, n: h_unique(ev, a, k, fr, n),
@@ -2375,7 +2446,8 @@ EXT = {
     "dask.delayed": h_delayed, "dask.base.tokenize": h_tokenize, "dask.tokenize": h_tokenize, "dask.array.from_delayed": h_from_delayed, "dask.array.map_blocks": h_map_blocks,
     "contextlib.nullcontext": h_nullcontext, "baseband.open": h_baseband_open, "numpy.polynomial.Polynomial": h_polynomial,
     "functools.wraps": lambda ev, a, k, fr, n: OpaqueV("decorator"),
-    "functools.singledispatch": lambda ev, a, k, fr, n: a[0],
+    "functools.singledispatch": lambda ev, a, k, fr, n: DispatchV(a[0]),
+    "dask.array.fft.fft_wrap": lambda ev, a, k, fr, n: h_fft_wrap(ev, a, k, fr, n),
 }
 for _nm in ("fft", "fft2", "fftn", "rfft", "rfft2", "rfftn", "hfft"):
     EXT["scipy.fft." + _nm] = _fft_like("FFT" if _nm == "fft" else "FFT_" + _nm)
